@@ -210,28 +210,100 @@ def err_kind(e):
 class Timeout(BaseException):
     pass
 
+_FIRED = [False]
+
 def _alarm(signum, frame):
+    # Library code contains bare `except:` clauses that swallow this exception (e.g. Pcap.next turns it into
+    # StopIteration), so the event is also recorded in a flag, and the alarm re-arms itself to keep
+    # interrupting a loop that keeps swallowing it.
+    _FIRED[0] = True
+    signal.alarm(1)
     raise Timeout()
 
 WATCHDOG_S = 5
 
-def guarded(fn):
-    """Run fn() under the watchdog; returns ('ok', value) | ('err', kind) | ('timeout', None)."""
+def guarded(fn, seconds=None):
+    """Run fn() under the watchdog; returns ('ok', value) | ('err', kind) | ('timeout', None).
+    Nests inside an outer Watch/guarded (the outer alarm is re-armed with its remaining time)."""
     old = signal.signal(signal.SIGALRM, _alarm)
-    signal.alarm(WATCHDOG_S)
+    t0 = time.time()
+    outer_fired = _FIRED[0]
+    _FIRED[0] = False
+    prev = signal.alarm(seconds or WATCHDOG_S)
     try:
-        return ("ok", fn())
+        try:
+            v = fn()
+        finally:
+            signal.alarm(0)
+        if _FIRED[0]:
+            return ("timeout", None)
+        return ("ok", v)
     except Timeout:
         return ("timeout", None)
     except RecursionError:
-        return ("err", "recursion")
+        return ("timeout", None) if _FIRED[0] else ("err", "recursion")
     except MemoryError:
         return ("err", "memory")
     except Exception as e:
+        if _FIRED[0]:
+            return ("timeout", None)
         return ("err", err_kind(e))
     finally:
         signal.alarm(0)
         signal.signal(signal.SIGALRM, old)
+        _FIRED[0] = outer_fired
+        if prev:
+            signal.alarm(max(1, prev - int(time.time() - t0)))
+
+def watched(seconds=60):
+    """Decorator for oracle check functions: the body runs under the watchdog; if the library does not
+    return in time the check reports that as its finding (a string), other exceptions propagate."""
+    import functools
+    def deco(fn):
+        if getattr(fn, "_watched", False):
+            return fn
+        @functools.wraps(fn)
+        def wrapper(*a, **k):
+            old = signal.signal(signal.SIGALRM, _alarm)
+            outer = _FIRED[0]
+            _FIRED[0] = False
+            t0 = time.time()
+            prev = signal.alarm(seconds)
+            msg = "%s: an operation of the library did not finish within %d s" % (fn.__name__, seconds)
+            try:
+                try:
+                    r = fn(*a, **k)
+                finally:
+                    signal.alarm(0)
+                return msg if _FIRED[0] else r
+            except Timeout:
+                return msg
+            finally:
+                signal.alarm(0)
+                signal.signal(signal.SIGALRM, old)
+                _FIRED[0] = outer
+                if prev:
+                    signal.alarm(max(1, prev - int(time.time() - t0)))
+        wrapper._watched = True
+        return wrapper
+    return deco
+
+class Watch:
+    """Coarse watchdog around a whole phase of a check (generation, correspondence, oracle search): harness code
+    that calls the library outside `guarded` cannot hang the check.  `fired` tells whether it expired."""
+    def __init__(self, seconds):
+        self.seconds, self.fired = seconds, False
+    def __enter__(self):
+        self.old = signal.signal(signal.SIGALRM, _alarm)
+        _FIRED[0] = False
+        signal.alarm(self.seconds)
+        return self
+    def __exit__(self, et, ev, tb):
+        signal.alarm(0)
+        signal.signal(signal.SIGALRM, self.old)
+        self.fired = _FIRED[0] or et is Timeout
+        _FIRED[0] = False
+        return et is Timeout          # swallow our own exception; the caller looks at .fired
 
 def _res(st):
     if st[0] == "ok":
